@@ -95,7 +95,11 @@ def _paths(ctx, P, body, memo, depth=0):
             d = s["d"]
             if len(d) > 1 and d[-1] == "f:tip":
                 try:
-                    lin = _linear(ctx.og._rvalue(body, s["rv"], 0, ()), self_param)
+                    rvt = og.strip(ctx.og._rvalue(body, s["rv"], 0, ()))
+                    # a step of `tip` that saturates (tip.saturating_sub(1)) is a constant step wherever heights mean anything
+                    if isinstance(rvt, tuple) and rvt and rvt[0] == "call" and rvt[1].split("::")[-1] in ("saturating_sub", "saturating_add") and len(rvt[2]) == 2:
+                        rvt = ("bin", "Sub" if rvt[1].endswith("sub") else "Add", rvt[2][0], rvt[2][1])
+                    lin = _linear(rvt, self_param)
                 except _Bad as e:
                     raise _Bad("`tip` is assigned a value that is not tip ± constant in %s (%s)" % (shortfn(body.id), e))
                 if lin.get("T", 0) != 1 or any(lin.get(k, 0) for k in ("L", "S", "P")):
@@ -155,6 +159,8 @@ def _paths(ctx, P, body, memo, depth=0):
                             extra += ("pop_front=" + f[2],)
                     if f[0] == "truth" and any(c.endswith("::is_full") for c in og.calls_in(f[1])):
                         extra += ("is_full=%s" % f[2],)
+                    elif f[0] == "truth" and any(c.endswith("::is_empty") and "VecDeque" in c for c in og.calls_in(f[1])) and "f:blocks" in og.show(f[1]):
+                        extra += ("blocks.is_empty=%s" % f[2],)
                     elif f[0] == "truth":
                         from .rulekit import rel_of_term
                         for op_, l_, r_ in rel_of_term(f[1], f[2]):
@@ -288,7 +294,19 @@ def rule_TH(ctx, tier):
             n_paths += 1
             lab = ", ".join(labels) or "-"
             if name == "remove_disconnected_block" and "tx_in_block.remove=None" in labels:
-                rr.ok("%s [%s]: block not held by the index — outside the N-block window the property speaks of" % (name, lab), nontrivial=False)
+                # a disconnected block the index does not hold. Blocks are disconnected tip first, so the queue is empty
+                # and the chain is being rewound BELOW the window: the window moves down with it — the block that will be
+                # connected next, and sit at the front, is one lower than before — so `tip` has to follow. Otherwise every
+                # height reported after a reorg deeper than the index is too high by the excess depth, for good.
+                if "blocks.is_empty=False" in labels:
+                    rr.ok("%s [%s]: infeasible — blocks are disconnected tip first, an unknown block with a non-empty queue cannot occur" % (name, lab), nontrivial=False)
+                    continue
+                dg = aT * dT + aL * dL + 1
+                desc = "%s [%s]: Δtip=%+d Δlen=%+d Δheight(next front)=-1" % (name, lab, dT, dL)
+                if dg == 0:
+                    rr.ok(desc + " keeps reported = true height", sample={"rule": "TH", "path": desc, "delta of (reported - true)": 0})
+                else:
+                    rr.fail("height-drift:remove_disconnected_block:below-window", "a block disconnected while the index is empty (a reorg deeper than its %s blocks) leaves `tip` where it was: every height `get_height` (= %s) reports from then on is too high by the number of such blocks (%s); the Responder stores it as ConfirmedIn(h) and `current_height - h` underflows at the next block" % ("N", formula, desc), where=P.bodies[m].span)
                 continue
             if ("tx_in_block.remove=Some" in labels and "pop_back=None" in labels) or "pop_front=None" in labels:
                 rr.ok("%s [%s]: infeasible — queue and per-block map hold the same blocks (rule TX)" % (name, lab), nontrivial=False)
